@@ -31,16 +31,14 @@ import (
 	"verif/probe"
 )
 
-const followSchemaYml = `schema:
-  - schema.graphql
-exec:
-  layout: follow-schema
-  dir: graph
-  package: graph
-model:
-  filename: graph/models_gen.go
-  package: graph
-`
+// followSchema rewrites the probe's gqlgen.yml to the follow-schema layout.
+func followSchema(yml string) string {
+	const single = "exec:\n  filename: graph/generated.go\n  package: graph\n"
+	if !strings.Contains(yml, single) {
+		broken("probes/exec/gqlgen.yml: exec block not in the expected single-file form")
+	}
+	return strings.Replace(yml, single, "exec:\n  layout: follow-schema\n  dir: graph\n  package: graph\n", 1)
+}
 
 const exportShim = `package complexity
 
@@ -150,15 +148,15 @@ func harnessFiles() map[string]string {
 }
 
 type layoutSpec struct {
-	name string
-	yml  string // "" = the probe's own gqlgen.yml
+	name         string
+	followSchema bool
 }
 
 // buildHarness generates the probe in the given layout and builds the harness binary.
 func buildHarness(l layoutSpec, overlay string, pkg string) (dir, bin string) {
 	files := probeFiles()
-	if l.yml != "" {
-		files["gqlgen.yml"] = strings.Replace(l.yml, "  - schema.graphql\n", "  - schema.graphql\n  - c14_extra.graphql\n", 1)
+	if l.followSchema {
+		files["gqlgen.yml"] = followSchema(files["gqlgen.yml"])
 	}
 	for k, v := range harnessFiles() {
 		files[k] = v
@@ -277,7 +275,7 @@ func main() {
 	defer probe.Cleanup()
 	overlay := instrumentSafeAdd(scratch)
 
-	layouts := []layoutSpec{{"single-file", ""}, {"follow-schema", followSchemaYml}}
+	layouts := []layoutSpec{{"single-file", false}, {"follow-schema", true}}
 
 	if rp := common.ReplayArg(); rp != "" {
 		replay(rp, layouts, overlay)
@@ -295,7 +293,10 @@ func main() {
 	plans := []plan{{4, 3, 4, max(1, cpus/2)}, {4, 3, 4, max(1, cpus/2)}}
 	if !quick {
 		budget = 17 * 60
-		plans = []plan{{5, 4, 5, max(1, cpus/2)}, {5, 4, 5, max(1, cpus/2)}}
+		// the layouts differ only in the template that emits Complexity() (generated!.gotpl vs
+		// root_.gotpl); every "Type.field" case of the alphabet is already reached at 4 nodes, so
+		// the deeper enumeration is spent on one layout
+		plans = []plan{{5, 4, 5, max(1, cpus-max(1, cpus/8))}, {4, 4, 4, max(1, cpus/8)}}
 	}
 
 	results := make([]*result, len(layouts))
@@ -359,7 +360,7 @@ func main() {
 		c.Report("walker-negative-operand", fmt.Sprintf("complexityWalker passed a negative operand to safeAdd %d times", total["safeadd_negative_operand_calls_from_walker"]), nil)
 	}
 	// the two layouts must have explored the same space
-	if len(results) == 2 && results[0].Counts["op_x_assignment"] != results[1].Counts["op_x_assignment"] && results[0].Exhaustive && results[1].Exhaustive {
+	if plans[0].n == plans[1].n && results[0].Counts["op_x_assignment"] != results[1].Counts["op_x_assignment"] && results[0].Exhaustive && results[1].Exhaustive {
 		broken("layouts explored different spaces: %d vs %d", results[0].Counts["op_x_assignment"], results[1].Counts["op_x_assignment"])
 	}
 
@@ -373,7 +374,7 @@ func main() {
 	c.Cov["omit_complexity_variant"] = omitOut
 	c.Cov["safeadd_grid"] = "12x12 = 144 cells over {minInt, minInt+1, -2, -1, 0, 1, 2, maxInt/2, maxInt/2+1, maxInt-2, maxInt-1, maxInt}; both operands >= 0 (64 cells): exact saturating sum from math/big; one negative (64): the other operand; both negative (16): documentation does not define the value, only a non-negative result is required (the code returns 1)"
 	c.Cov["bounds"] = map[string]any{
-		"max_selection_nodes":    plans[0].n,
+		"max_selection_nodes":    map[string]int{"single-file": plans[0].n, "follow-schema": plans[1].n},
 		"grammar":                "ordered selection sets over Query{str,z:str,arg[6 argument forms],t,targ[3 argument forms],node,u,__typename} Mutation{m1,m3} T{id,z:id,name,kid,peer,u,__typename} S{id,peer} Node{id,__typename} Named{name} Deep{peer} U{__typename}; inline fragments without / with type condition in {T,S,Node,Named,Deep,U} (where the types overlap); named fragment definition+spread on the same conditions; re-use of any fragment of the document; argument forms of Query.arg (leaf, default x=7): none, x:3, x:$v, x:2 y:[p,q], x:-4, x:null; of Query.targ (composite, added by this check as `extend type Query { targ(x: Int = 6): T }`, default x=6): none, x:3, x:$v; variable modes for $v: given 2, variable default 4, absent, null",
 		"assignments":            "custom functions on <= 2 of the Object.field pairs the operation touches (for interface selections: every implementing object), each from {const 0, 1, 5, -3, maxInt, maxInt-1, child*2 saturating, child+x+10*len(y) (= child on fields without arguments)}; plus one assignment per operation putting maxInt on every field the operation does not touch",
 		"limits":                 "{0, 1, c-1, c, c+1, maxInt} (de-duplicated, c = reference complexity)",
